@@ -41,6 +41,9 @@ static void gen(Plan* p, Rng* r, int tier, long idx) {
     plan_set(p, "content_size", (int64_t)rng_below(r, 5000));
     plan_set(p, "alloc_fail", rng_coin(r, 1, 6) ? 1 + (int64_t)rng_below(r, 24) : 0);
     plan_set(p, "alloc_fail2", rng_coin(r, 1, 3) ? 1 + (int64_t)rng_below(r, 60) : 0);
+    /* thin training part: the samples before the split point hold 0..12 bytes together, the rest is ordinary */
+    if ((idx / A_N) % 8 == 3) { plan_set(p, "set_kind", 10); plan_set(p, "nb", 12 + (int64_t)rng_below(r, 100)); plan_set(p, "split1000", 100 + (int64_t)rng_below(r, 800)); plan_set(p, "thin", (int64_t)rng_below(r, 13));
+        if (rng_coin(r, 1, 2)) { plan_set(p, "k", 16 + (int64_t)rng_below(r, 200)); plan_set(p, "d", rng_coin(r, 1, 2) ? 6 : 8); plan_set(p, "f", 8 + (int64_t)rng_below(r, 13)); plan_set(p, "accel", 1 + (int64_t)rng_below(r, 10)); } }
     sim_sched_plan_defaults(p, r, threads >= 2);
 }
 
@@ -55,7 +58,8 @@ static void make_samples(Samples* s, const Plan* p) {
     if (kind == 3 && nb) { size_t one = total / nb; if (one < 1) one = total ? 1 : 0; for (k = 0; k < nb && pos + one <= total; k++) { if (k) memcpy(s->buf + pos, s->buf, one); s->sizes[k] = one; pos += one; } s->nb = k; s->total = pos; return; }
     for (k = 0; k < nb; k++) {
         size_t left = total - pos, sz;
-        if (kind == 6) sz = k == 0 ? left - (left > nb ? nb : 0) : (left ? 1 : 0);
+        if (kind == 10 && k < (unsigned)((double)nb * ((double)plan_get(p, "split1000", 0) / 1000.0))) { size_t const thin = (size_t)plan_get(p, "thin", 0); sz = (pos < thin && rng_coin(&r, 1, 3)) ? 1 + (size_t)rng_below(&r, thin - pos) : 0; if (sz > left) sz = left; }
+        else if (kind == 6) sz = k == 0 ? left - (left > nb ? nb : 0) : (left ? 1 : 0);
         else if (k + 1 == nb && rng_coin(&r, 1, 2)) sz = left;
         else { size_t avg = total / nb + 1; sz = rng_coin(&r, 1, 10) ? 0 : rng_coin(&r, 1, 8) ? (size_t)rng_below(&r, 8) : (size_t)rng_below(&r, 2 * avg + 1); if (sz > left) sz = left; }
         s->sizes[k] = sz; pos += sz;
